@@ -106,6 +106,28 @@ pub fn rule_is_dst_at(rule: &RuleSpec, unix: i64) -> Option<bool> {
     Some(last.1)
 }
 
+/// Does the rule alternate cleanly (start, end, start, end, ...) through a whole 400-year cycle, with at
+/// least two seconds between any two changes? Then it is a consistent rule whatever bounds an implementation
+/// uses to decide that. `None`: not clearly so (no position; in particular never a verdict of "inconsistent").
+pub fn rule_clearly_consistent(rule: &RuleSpec) -> Option<bool> {
+    let (std_off, dst_off, start, start_time, end, end_time) = match rule {
+        RuleSpec::Fixed { .. } => return Some(true),
+        RuleSpec::Alt { std_off, dst_off, start, start_time, end, end_time, .. } => (*std_off as i64, *dst_off as i64, start, *start_time as i64, end, *end_time as i64),
+    };
+    let mut ev: Vec<(i64, bool)> = Vec::with_capacity(804);
+    for yy in 1969..2371 {
+        ev.push((rule_day(start, yy)? * 86400 + start_time - std_off, true));
+        ev.push((rule_day(end, yy)? * 86400 + end_time - dst_off, false));
+    }
+    ev.sort();
+    for w in ev.windows(2) {
+        if w[1].0 - w[0].0 < 2 || w[0].1 == w[1].1 {
+            return None;
+        }
+    }
+    Some(true)
+}
+
 /// The instants (unix) at which the rule changes in the years around `unix` (for the generator).
 pub fn rule_events_near(rule: &RuleSpec, unix: i64) -> Vec<i64> {
     let mut out = Vec::new();
@@ -196,8 +218,13 @@ pub fn independently_valid(z: &ZoneSpec) -> Option<bool> {
             r
         }
     };
-    // the rule itself is judged by the public rule constructors (their acceptance is not C08's subject)
-    if rule.build().is_none() {
+    // the rule's parts are judged by their public constructors (simple range checks; not C08's subject); whether
+    // its two changes keep their order in every year is judged here when that is clear-cut, so that a decoder
+    // refusing a perfectly ordinary footer cannot hide behind its own rule constructor
+    if !rule.parts_build() {
+        return Some(false);
+    }
+    if rule_clearly_consistent(rule) != Some(true) && rule.build().is_none() {
         return Some(false);
     }
     let (lt, idx) = match z.trans.last() {
